@@ -7,7 +7,8 @@
     reach=    every trace the micro-step model (RoModel/MultiB/Micro.lean) can deliver, over all schedules
   The check requires seen ⊆ reach (the micro-step model covers the real code) and reports
   seen \ (allowed ∪ logical) as the concurrent deviation (known finding when listed). A trace followed by
-  `!deadlock` means: delivered, and then a goroutine blocked forever on the operator's own mutex.
+  `!deadlock` (harness side only) means: delivered, and then a goroutine blocked forever on a mutex of the
+  library; no micro-step model has such an outcome since the Zip fix b6f7afa, so it is always reported.
 -/
 import RoModel.Drivers.MultiB
 import RoModel.MultiB.Micro
@@ -32,7 +33,7 @@ def run (c : Case) : String :=
       | "Zip" => some (
           ords.map (fun π => Drivers.MultiB.renderTrace renderTuple (Spec.zip n (arr π))),
           ords.map (fun π => Drivers.MultiB.renderTrace renderTuple (Ro.MultiB.run (zipM n) scripts π).out),
-          (reach (zipMM n) fuel ((zipMM n).start scripts)).map (fun s => Drivers.MultiB.renderTrace renderTuple s.out ++ (if s.dead then "!deadlock" else "")))
+          (reach (zipMM n) fuel ((zipMM n).start scripts)).map (fun s => Drivers.MultiB.renderTrace renderTuple s.out))
       | "CombineLatest" => some (
           ords.map (fun π => Drivers.MultiB.renderTrace renderTuple (Spec.combineLatest n (arr π))),
           ords.map (fun π => Drivers.MultiB.renderTrace renderTuple (Ro.MultiB.run (combineLatestM n) scripts π).out),
